@@ -18,6 +18,10 @@ func (sc *Scn) refs() map[int]bool {
 				walk(c.From)
 				walk(c.To)
 			}
+			for _, c := range n.LateConns {
+				walk(c.From)
+				walk(c.To)
+			}
 		}
 	}
 	walk(sc.Root)
@@ -48,6 +52,12 @@ func compact(sc *Scn) *Scn {
 				n.Conns[k].From = remap[n.Conns[k].From]
 				if n.Conns[k].To >= 0 {
 					n.Conns[k].To = remap[n.Conns[k].To]
+				}
+			}
+			for k := range n.LateConns {
+				n.LateConns[k].From = remap[n.LateConns[k].From]
+				if n.LateConns[k].To >= 0 {
+					n.LateConns[k].To = remap[n.LateConns[k].To]
 				}
 			}
 		}
@@ -137,6 +147,12 @@ func shrinkCands(x any) []any {
 			continue
 		}
 		if n.Kind == "flow" {
+			for k := range n.LateConns {
+				c := sc.clone()
+				cn := c.Nodes[id]
+				cn.LateConns = append(cn.LateConns[:k], cn.LateConns[k+1:]...)
+				add(c)
+			}
 			for k := range n.Conns {
 				c := sc.clone()
 				cn := c.Nodes[id]
